@@ -151,11 +151,21 @@ def main(argv):
     plans = []
     for kind in "ehm":
         plans.append((kind, "small-even")); plans.append((kind, "small-odd")); plans.append((kind, "general"))
+    plans.append(("m", "general-harmonic"))      # complex potentials: the time-harmonic branch of the magnetics post-processor
     if ck.tier == "thorough":
         plans = plans * 3
     try:
         for t, (kind, shape) in enumerate(plans):
-            p = gen.gen_rects(kind, rng, units="centimeters") if shape == "general" else None
+            p = gen.gen_rects(kind, rng, units="centimeters") if shape.startswith("general") else None
+            if shape == "general-harmonic":
+                p.freq = rng.choice([50.0, 400.0])
+                for m_ in p.blockprops:
+                    m_.pop("LamType", None); m_.pop("LamFill", None); m_.pop("H_c", None)
+                    m_["Sigma"] = m_.get("Sigma", rng.choice([0.0, 1.0, 10.0]))
+                for lab in p.labels:
+                    if lab["circ"] >= 0 and p.circprops[lab["circ"]]["type"] == 0:
+                        lab["turns"] = 1
+                stats["harmonic_problems"] = stats.get("harmonic_problems", 0) + 1
             if p is None:
                 # tiny mesh: one box, coarse
                 p = femmio.Problem(kind)
@@ -184,6 +194,11 @@ def main(argv):
                 continue
             sol = femmio.read_solution(run.solution_path(), kind)
             M = ExactMesh(sol)
+            Mim = None
+            if shape == "general-harmonic":
+                import copy as _copy
+                Mim = _copy.copy(M)
+                Mim.v = [n[3] for n in sol["nodes"]]
             N = len(M.els)
             want_even = shape == "small-even"
             if shape.startswith("small") and (N % 2 == 0) != want_even:
@@ -281,13 +296,19 @@ def main(argv):
                 ex = M.interp(inside[0], x, y)
                 vs = max(abs(v) for v in M.v) or 1.0
                 err = abs(val - ex) / vs
+                if Mim is not None:
+                    # the imaginary part is interpolated like the real one
+                    vs = max(vs, max(abs(v) for v in Mim.v))
+                    vim = got[0].imag if isinstance(got[0], complex) else 0.0
+                    err = max(abs(val - ex), abs(vim - Mim.interp(inside[0], x, y))) / vs
+                    stats["complex_values_compared"] = stats.get("complex_values_compared", 0) + 1
                 stats["worst_value_error"] = max(stats["worst_value_error"], err)
-                if err > 1e-12 and nviol < 3:
+                if not (err <= 1e-12) and nviol < 3:
                     nviol += 1
                     ck.violation("value:%s" % kind, "%s: value at (%.17g, %.17g) is %.17g, the exact interpolant of element %d gives %.17g"
                                  % (kind, x, y, val, inside[0], ex), dict(files=run.files(), point=(x, y), category=cat))
                     continue
-                if len(model_lines) < 400:
+                if len(model_lines) < 400 and Mim is None:
                     a, b, c = M.els[inside[0]]
                     model_lines.append("interp " + " ".join(d2tok(v) for v in (*M.xyf[a], *M.xyf[b], *M.xyf[c], M.v[a], M.v[b], M.v[c], x, y)))
                     model_expect.append((val, vs, (x, y)))
